@@ -62,6 +62,14 @@ pub struct C08Case {
     /// input; declaring another distance basis must carry through consistently)
     #[serde(default)]
     pub elec_rate_unit: u8,
+    /// time unit named in the energy service's own section (None = the time model's): the time
+    /// *feature* stays in the time model's unit, the speed must be recovered from it all the same
+    #[serde(default)]
+    pub service_time_unit: Option<u8>,
+    /// build the vehicle through the application's vehicle builders from configuration JSON
+    /// (model file, interpolation section, units, adjustment, cache section) instead of directly
+    #[serde(default)]
+    pub via_builder: bool,
 }
 
 pub struct C08;
@@ -196,7 +204,7 @@ impl Prop for C08 {
         "C08"
     }
     fn rule(&self) -> String {
-        "generated histories: 1-12 edges (length 5 m - 20 km, table speed 3-130, grade -0.25..0.25 incl. steep downhill) x vehicle {ICE Camry, BEV Bolt, PHEV Volt} over the bundled models wrapped in a continuous interpolation x battery capacity 0.05-100 kWh x starting charge in [0,100] or invalid (-5, 100.01, text, null, missing) x unit configuration of the time model (3 speed x 5 distance x 4 time units), of the energy service (distance unit, speed unit), of the grade table (3 units) x real-world adjustment none or 0.5-2 x prediction cache off or size 1-64 with precisions -1..3. The real EnergyTraversalModel is driven edge by edge; oracle: reference energy = model rate at the reference speed/grade x adjustment x length, charge = clamp(charge - 100 x electric energy / capacity), PHEV mode by charge at entry, additivity, best-case estimate = ideal rate x great-circle distance, with a cache the reference is the range of the model over the bucket of speeds and grades sharing the edge's cache key. non-trivial = >= 3 edges with a negative-energy edge and a clamp at 0 or 100, or a PHEV history that crosses from electric to liquid".to_string()
+        "generated histories: 1-12 edges (length 5 m - 20 km, table speed 3-130, grade -0.25..0.25 incl. steep downhill) x vehicle {ICE Camry, BEV Bolt, PHEV Volt} over the bundled models wrapped in a continuous interpolation x battery capacity 0.05-100 kWh x starting charge in [0,100] or invalid (-5, 100.01, text, null, missing) x unit configuration of the time model (3 speed x 5 distance x 4 time units), of the energy service (distance unit, speed unit, a time unit of its own that differs from the time feature's), of the grade table (3 units) x real-world adjustment none or 0.5-2 x vehicle built directly or (1 in 20) through the application's vehicle builders from configuration JSON x prediction cache off or size 1-64 with precisions -1..3. The real EnergyTraversalModel is driven edge by edge; oracle: reference energy = model rate at the reference speed/grade x adjustment x length, charge = clamp(charge - 100 x electric energy / capacity), PHEV mode by charge at entry, additivity, best-case estimate = ideal rate x great-circle distance, with a cache the reference is the range of the model over the bucket of speeds and grades sharing the edge's cache key. non-trivial = >= 3 edges with a negative-energy edge and a clamp at 0 or 100, or a PHEV history that crosses from electric to liquid".to_string()
     }
     fn cases(&self, tier: Tier) -> u32 {
         tier.pick(20_000, 600_000)
@@ -233,9 +241,9 @@ impl Prop for C08 {
             soc,
             proptest::option::weighted(0.4, (0.5f64..2.0).prop_map(|v| (v * 20.0).round() / 20.0)),
             proptest::option::weighted(0.35, (1usize..=64, -1i32..=3, -1i32..=3)),
-            (-300i16..300, -300i16..300, 0u8..3, proptest::bool::weighted(0.4)),
+            (-300i16..300, -300i16..300, 0u8..3, proptest::bool::weighted(0.4), proptest::option::weighted(0.4, 0u8..4), proptest::bool::weighted(0.05)),
         )
-            .prop_map(|(vehicle, mut edges, (speed_unit, dist_unit, time_unit), (service_dist_unit, ssu, grade_unit), capacity_kwh, soc, adjustment, cache, (e0, e1, elec_rate_unit, pooled))| {
+            .prop_map(|(vehicle, mut edges, (speed_unit, dist_unit, time_unit), (service_dist_unit, ssu, grade_unit), capacity_kwh, soc, adjustment, cache, (e0, e1, elec_rate_unit, pooled, service_time_unit, via_builder))| {
                 if pooled {
                     // few distinct (speed, grade) pairs: repeated cache keys along the history
                     for e in edges.iter_mut() {
@@ -259,6 +267,8 @@ impl Prop for C08 {
                 cache,
                 estimate,
                 elec_rate_unit,
+                service_time_unit,
+                via_builder,
                 }
             })
             .boxed()
@@ -272,7 +282,60 @@ impl Prop for C08 {
         o.label_if(c.vehicle % 3 != 0, format!("electric-rate-unit-{}", c.elec_rate_unit % 3));
         let cap = Energy::new(c.capacity_kwh);
         let rec = |i: usize| record(i, c.adjustment, c.cache, c.elec_rate_unit);
+        o.label_if(c.via_builder, "vehicle-built-from-configuration");
+        let built_from_config: Option<Result<Arc<dyn VehicleType>, String>> = if c.via_builder {
+            use routee_compass::app::compass::config::traversal_model::energy_model_vehicle_builders::VehicleBuilder;
+            let record_cfg = |i: usize, name: &str| -> Value {
+                let mut m = serde_json::Map::new();
+                m.insert("name".into(), json!(name));
+                m.insert("model_input_file".into(), json!(model_path(i).to_string_lossy().to_string()));
+                m.insert(
+                    "model_type".into(),
+                    json!({"interpolate": {"underlying_model_type": "smartcore",
+                        "speed_lower_bound": 0.0, "speed_upper_bound": 100.0, "speed_bins": 51,
+                        "grade_lower_bound": -0.3, "grade_upper_bound": 0.3, "grade_bins": 31}}),
+                );
+                m.insert("speed_unit".into(), json!("miles_per_hour"));
+                m.insert("grade_unit".into(), json!("decimal"));
+                m.insert("energy_rate_unit".into(), serde_json::to_value(rate_unit_for(i, c.elec_rate_unit)).unwrap_or(Value::Null));
+                if let Some(a) = c.adjustment {
+                    m.insert("real_world_energy_adjustment".into(), json!(a));
+                }
+                if let Some((size, ps, pg)) = c.cache {
+                    m.insert("float_cache_policy".into(), json!({"cache_size": size, "key_precisions": [ps, pg]}));
+                }
+                Value::Object(m)
+            };
+            let (kind, cfg) = match c.vehicle % 3 {
+                0 => ("ice", record_cfg(0, "vehicle")),
+                1 => {
+                    let mut v = record_cfg(1, "vehicle");
+                    v["battery_capacity"] = json!(c.capacity_kwh);
+                    v["battery_capacity_unit"] = json!("kilowatt_hours");
+                    ("bev", v)
+                }
+                _ => (
+                    "phev",
+                    json!({"name": "vehicle", "charge_depleting": record_cfg(2, "cd"), "charge_sustaining": record_cfg(3, "cs"),
+                           "battery_capacity": c.capacity_kwh, "battery_capacity_unit": "kilowatt_hours"}),
+                ),
+            };
+            Some(
+                VehicleBuilder::from_string(kind.to_string())
+                    .and_then(|b| b.build(&cfg))
+                    .map_err(|e| format!("{} (configuration {})", e, cfg)),
+            )
+        } else {
+            None
+        };
         let base: Arc<dyn VehicleType> = match c.vehicle % 3 {
+            _ if built_from_config.is_some() => match built_from_config.unwrap() {
+                Ok(v) => v,
+                Err(e) => {
+                    o.fail("C08/vehicle-builder/valid-configuration-rejected", json!({"error": e}));
+                    return o;
+                }
+            },
             0 => match rec(0).and_then(|r| ICE::new("vehicle".into(), r).map_err(|e| e.to_string())) {
                 Ok(v) => Arc::new(v),
                 Err(e) => {
@@ -359,7 +422,7 @@ impl Prop for C08 {
             time_model_speed_unit: ssu,
             grade_table: Arc::new(Some(grades.into_boxed_slice())),
             grade_table_grade_unit: gu,
-            time_unit: tu,
+            time_unit: c.service_time_unit.map(|u| TIME_UNITS[u as usize % 4]).unwrap_or(tu),
             distance_unit: sdu,
             vehicle_library: HashMap::new(),
         });
